@@ -211,8 +211,9 @@ func (g *gen) val(t cty.Type, top bool) cty.Value {
 		return cty.TupleVal(vs)
 	case t.IsObjectType():
 		m := map[string]cty.Value{}
-		for k, at := range t.AttributeTypes() {
-			m[k] = g.val(at, false)
+		ats := t.AttributeTypes()
+		for _, k := range hv.SortedKeys(ats) { // deterministic use of the PRNG
+			m[k] = g.val(ats[k], false)
 		}
 		return cty.ObjectVal(m)
 	}
